@@ -7,9 +7,15 @@ from picomon import events
 from picomon.ref import render as RR, pathgeom as PG
 
 
-def convert(doc, ndigits=3, allow_text=False, drop_unsupported=False):
+CUR_NDIGITS = 3  # set by the rendering drivers per document, so that classifier re-conversions use the case's own precision
+
+
+def convert(doc, ndigits=None, allow_text=False, drop_unsupported=False):
     """-> ("ok", output_text) | ("exc", exception)"""
     from picosvg.svg import SVG
+
+    if ndigits is None:
+        ndigits = CUR_NDIGITS
 
     try:
         svg = SVG.fromstring(doc)
